@@ -206,6 +206,13 @@ class CacheAccess:
                 self.reads.append(rec)
             elif not mut and c is not None and not c.local and c.nsyn.startswith("std::fmt::"):
                 self.reads.append(rec)
+            elif c is not None and c.local and c.kind == "Item" and depth < 4 and self.prog.bodies.get(c.path) is not None \
+                    and not self.prog.bodies[c.path].j.get("pub") and ai < self.prog.bodies[c.path].arg_count:
+                # the map reference is handed to a private crate helper (`lookup(&parser.templates, id)`,
+                # `learn(&mut self.templates, ..)`): what the helper does with that parameter is classified there
+                hb = self.prog.bodies[c.path]
+                for uu in follow_mut_ref(hb, ai + 1):
+                    self._classify(hb, hit, mut, uu, s, depth + 1)
             else:
                 self.violations.append((b, b.line(blk), "%s-via:%s" % ("mutation" if mut else "access", nm),
                                         "cache map %s.%s %s passed to %s — not an allowed accessor (insert/extend for writes; contains_key/get for reads)"
